@@ -219,7 +219,7 @@ def plan_c12(tier, seed, index):
 def plan_c16(tier, seed, index):
     P = []
     for h in generated(index, "C16"):
-        P.append(ob(h["harness"], h["desc"], timeout=3600, mem_gb=20, unwindset=h["unwindset"], unwind=h["unwind"],
+        P.append(ob(h["harness"], h["desc"], timeout=3600, mem_gb=20, unwindset=h["unwindset"],
                     functions=["fst::raw::FstRef::get_key_into", "fst::raw::Fst::get_key_into"] + NODE_DEC, artifact=h["artifact"],
                     bounds="every u64 query value; per-loop unwindset %s" % h["unwindset"], core=(h["artifact"] in ("mono4", "mono_empty0"))))
     return P
